@@ -1,6 +1,7 @@
 //! pqv: worker / replay binary of the verification harness. Driven by /verif/check.
 
 mod case;
+mod cost;
 mod gen;
 mod interp;
 mod model;
@@ -41,6 +42,7 @@ fn main() {
             let _ = std::fs::create_dir_all(&a.work_dir);
             let rep = match prop {
                 1 | 2 | 3 | 4 | 6 | 7 | 8 | 9 | 11 | 12 | 13 | 15 | 16 | 17 => run_history_property(&a),
+                5 => cost::run_c05(&a),
                 14 => special::run_c14(&a),
                 18 => special::run_c18(&a),
                 _ => {
@@ -61,7 +63,7 @@ fn main() {
             let text = std::fs::read_to_string(&file).expect("read replay file");
             let strict = args.iter().any(|a| a == "--strict");
             let known = if strict { vec![] } else { load_known(&known_path, &format!("C{:02}", prop)) };
-            let res = if matches!(prop, 14 | 18) { special::replay_special(prop, &text) } else { replay_history(prop, &text, &known) };
+            let res = if prop == 5 { cost::replay_c05(&text) } else if matches!(prop, 14 | 18) { special::replay_special(prop, &text) } else { replay_history(prop, &text, &known) };
             match res {
                 Ok(None) => {
                     println!("PASS");
@@ -76,6 +78,9 @@ fn main() {
                     std::process::exit(3)
                 }
             }
+        }
+        "calibrate" => {
+            cost::calibrate(arg(&args, "--cases").and_then(|s| s.parse().ok()).unwrap_or(300), arg(&args, "--tier").as_deref() == Some("thorough"));
         }
         "rule" => {
             println!("{}", rule_text(prop));
